@@ -113,6 +113,19 @@ DOCUMENTED = [
     'let s = "abc"; let r = map(func (c) => c, s) + "d";',
     'let s = "abc"; let r = filter(func (c) => c != "b", s) + "d";',
     'let t = {a = %s}; let r = filter(func (k, v) => v > 0, t); let q = map(func (k, v) => [k, v], r);' % P(1),
+    # shapes that are unified with other shapes after a copy changed a field's structure (list concatenation, module arguments, select arms)
+    'let t = {a = {x = 1}}; let u = t{a = {y = %s}}; let l = [u] + [{a = {y = 3}}]; let r = l.1.a.y + 1;' % P(1),
+    'let t = {a = {x = 1}}; let u = t{a = {y = %s}}; let l = [u] + [u]; let r = l.0.a.y + 1;' % P(1),
+    'let t = {a = [1]}; let u = t{a = ["s"]}; let l = [u] + [u]; let r = l.1.a.0 + "t";',
+    'let m = module {cfg = {a = {y = 0}}} => {let v = mod.cfg.a.y;}; let t = {a = {x = 1}}; let u = t{a = {y = %s}}; let r = m{cfg = u}.v + 1;' % P(1),
+    'let t = {a = {x = 1, z = 2}}; let u = t{a = {x = %s, y = 2}}; let l = [u, {a = {x = 1, y = 5}}]; let r = l.1.a.y + l.0.a.x;' % P(1),
+    'let l = [{a = 1}] + [{b = "s"}]; let r = l.1.b + "t"; let q = l.0.a + %s;' % P(1),
+    'let l = [{a = 1}, {a = "s"}]; let r = l.1.a + "t"; let q = l.0.a + %s;' % P(1),
+    'let s = select ("k", {a = 1}) => {k = {b = %s}}; let r = s.b + 1;' % P(1),
+    'let f = func (t) => t.a; let r = f({a = %s}) + 1; let s = f({a = "s", b = 2}) + "t";' % P(1),
+    'let m = module {v = NULL} => {let out = mod.v;}; let r = m{v = {a = %s}}.out.a + 1; let s = m{v = [1]}.out.0 + 1;' % P(1),
+    'let m = module {v = {a = 1}} => {let out = mod.v.a;}; let r = m{v = {a = %s, b = 2}}.out + 1;' % P(1),
+    'let base = {a = 1, b = {c = 2}}; let c1 = base{b = {c = "s"}}; let c2 = c1{b = {d = %s}}; let r = [c1, c2, base]; let q = c2.b.d + 1;' % P(1),
 ]
 
 
